@@ -117,7 +117,7 @@ def run(tier, seed):
     if len(ok) < 1000 or cov["with_cache_ok"] < 100 or cov["by_kind_ok"].get("perturb", 0) < 100 \
             or cov["decoy_after_ok"] == 0 or cov["range_computations_ok"] < 500 \
             or cov["histories_with_non_prefix_warm_cache"] < 100:
-        raise vlib.ToolError(f"vacuity: too few successful computations {cov}")
+        c.defer(f"vacuity: too few successful computations {cov}")
     c.sample(recs[0])
     c.sample([x for x in recs if x["kind"] == "perturb"][0])
     c.sample([x for x in recs if x["decoy"] == "first"][:1])
